@@ -301,7 +301,7 @@ func init() {
 	})
 
 	// pool: pool size / idle trimming / Stop-Restart cycles do not accumulate goroutines
-	registerFamily("pool", []string{"C01", "C03", "C18"}, func(e *env) {
+	registerFamily("pool", []string{"C01", "C03", "C14", "C18"}, func(e *env) {
 		r := vt.Rand()
 		e.common(r)
 		e.conc = e.p("conc", 2+r.Intn(4))
